@@ -13,7 +13,9 @@ Comparison (A), evaluated by vm_compute inside coqc:
   tokens), mutated texts and a list of hand-written corner cases; plus the static tables prim_tags
   and is_framed.
 Comparison (B), the property itself on the real code: parse(format(e, inline)) == e for structured
-  expressions (types, data, code, scripts), and parse(relayout(text)) == parse(text).
+  expressions (types, data, code, scripts), and parse(relayout(text)) == parse(text); history stream: round-trip,
+  edit the returned tree in place, round-trip the unchanged expression again (still e, same text), edit the input
+  in place between two format calls (no state may be carried from call to call).
 """
 import json
 import os
@@ -410,7 +412,7 @@ class Gen:
         return self.prim(r.choice(self.all_prims), [self.wild(d - 1) for _ in range(r.choice([0, 1, 1, 2, 3]))], self.annots(0.3))
 
 
-def sweep():
+def sweep(full=True):
     """deterministic boundary cases, every run: every type primitive bare / annotated / applied in argument position,
     every data constructor in argument position, every instruction primitive bare and annotated, every character
     0..255 inside a string, small and boundary integers, sequences nested in every position"""
@@ -465,7 +467,7 @@ def sweep():
     for i in list(range(-12, 13)) + [99, 100, 101, -99, -100, -101, 10 ** 18, -10 ** 18, 2 ** 64, -2 ** 64, 10 ** 50, -10 ** 50 - 1]:
         out.append(('sweep-int', P('Pair', [{'int': str(i)}, {'int': str(-i)}])))
     # the line-width rule (line_size = 100): texts whose width crosses 99/100/101 in every branch of format_node
-    for k in range(70, 101):
+    for k in range(70 if full else 80, 101):
         s_k = {'string': 'a' * k}
         out.append(('sweep-width', [s_k, {'int': '1'}]))                                   # sequence rule
         out.append(('sweep-width', P('Pair', [s_k, {'int': '1'}, {'string': 'b'}])))         # several arguments
@@ -722,6 +724,109 @@ def shrink(e, inline, budget=400):
     return e
 
 
+# ---------------------------------------------------------------------------------------------
+# history stream: the two functions must behave as FUNCTIONS (no state carried from call to call)
+# ---------------------------------------------------------------------------------------------
+
+def all_nodes(m, acc=None):
+    acc = [] if acc is None else acc
+    acc.append(m)
+    if isinstance(m, list):
+        for x in m:
+            all_nodes(x, acc)
+    elif isinstance(m, dict):
+        for x in m.get('args', []) or []:
+            all_nodes(x, acc)
+    return acc
+
+
+def edit_in_place(rng, m, nested):
+    """one in-place edit of a Micheline value (root or a nested node); returns a description"""
+    nodes = all_nodes(m)
+    n = rng.choice(nodes[1:]) if nested and len(nodes) > 1 else m
+    where = 'nested' if n is not m else 'root'
+    if isinstance(n, list):
+        k = rng.choice(['append', 'pop', 'insert', 'clear']) if n else 'append'
+        if k == 'append':
+            n.append({'int': '-3'})
+        elif k == 'pop':
+            n.pop()
+        elif k == 'insert':
+            n.insert(0, {'string': 'hist'})
+        else:
+            n.clear()
+        return f'{where} list {k}'
+    if 'prim' in n:
+        k = rng.choice(['annot', 'rename', 'addarg', 'delargs', 'editarg'])
+        if k == 'annot':
+            n['annots'] = list(n.get('annots', [])) + ['%hist']
+        elif k == 'rename':
+            n['prim'] = 'nat' if n['prim'] != 'nat' else 'int'
+        elif k == 'addarg':
+            n.setdefault('args', []).append({'prim': 'unit'})
+        elif k == 'delargs':
+            n.pop('args', None)
+            n.pop('annots', None)
+        else:
+            if n.get('args'):
+                n['args'][-1] = {'bytes': 'c0ffee'}
+            else:
+                n['annots'] = ['@hist']
+        return f'{where} prim {k}'
+    key = next(k for k in ('int', 'string', 'bytes') if k in n)
+    n[key] = {'int': '424242', 'string': 'hist "q" \\ x', 'bytes': 'c0ffee'}[key]
+    return f'{where} leaf {key}'
+
+
+def same(a, b):
+    try:
+        return canon(a) == canon(b)
+    except Exception:  # noqa: BLE001
+        return False
+
+
+def history_oracle(rng, e, inline, inline2):
+    """round-trip e, edit the RESULT in place, round-trip the unchanged e again (must still give e, and the same
+    text); then edit the INPUT in place and round-trip it (must give the edited input, not a remembered one).
+    Returns (steps, reason) — reason None when everything holds."""
+    import copy
+    steps = []
+    e0 = copy.deepcopy(e)
+    ok, t1 = py_format(e, inline)
+    ok1, r1 = py_parse(t1) if ok else (False, None)
+    if not (ok and ok1 and same(r1, e0)):
+        return steps, None                       # the plain round trip is judged elsewhere
+    steps.append(f'r1 = parse(format(e, inline={inline}))')
+    if isinstance(r1, (list, dict)):
+        for nested in (False, True, True):
+            steps.append('edit r1 in place: ' + edit_in_place(rng, r1, nested))
+    if not same(e, e0):
+        return steps, 'editing the parse result changed the caller\'s expression (the result shares structure with the input)'
+    for il in (inline, inline2):
+        ok, t2 = py_format(e, il)
+        if not ok or (il == inline and t2 != t1):
+            return steps + [f'format(e, inline={il})'], f'formatting the unchanged expression again gives a different text: {t2!r}'[:300]
+        ok2, r2 = py_parse(t2)
+        steps.append(f'r2 = parse(format(e, inline={il}))')
+        if not (ok2 and same(r2, e0)):
+            return steps, ('the second round trip of the unchanged expression returns ' + (json.dumps(canon(r2), default=repr) if ok2 else repr(r2)))[:400]
+        if r2 is r1:
+            return steps, 'the second parse returned the very object handed out by the first one'
+    # now the input itself is edited between two format calls
+    w = copy.deepcopy(e0)
+    if isinstance(w, (list, dict)):
+        steps.append('w = deepcopy(e); format(w); edit w in place: ' + edit_in_place(rng, w, rng.random() < 0.5))
+        py_format(w, inline)
+        if in_domain(w) and not finding_class(w) and all(isinstance(x, list) or 'prim' not in x or x['prim'] in tags() for x in all_nodes(w)):
+            snap = copy.deepcopy(w)
+            ok, t3 = py_format(w, inline)
+            ok3, r3 = py_parse(t3) if ok else (False, None)
+            steps.append(f'r3 = parse(format(w, inline={inline}))')
+            if not (ok and ok3 and same(r3, snap)):
+                return steps, ('after editing the input in place its round trip returns ' + (json.dumps(canon(r3), default=repr) if ok3 else repr(r3)))[:400]
+    return steps, None
+
+
 def repro(e, inline):
     return ('from pytezos.michelson.format import micheline_to_michelson as f; from pytezos.michelson.parse import '
             f'michelson_to_micheline as p; e={e!r}; assert p(f(e, inline={inline})) == e')
@@ -809,7 +914,7 @@ def run(ctx: lib.Ctx) -> None:
                 for t in doc.get('texts', []):
                     corpus_texts.append(t)
                     ctx.corpus_cases += 1
-    for kind, e in sweep():
+    for kind, e in sweep(full=ctx.thorough):
         exprs.append((kind, e, True))
     for _ in range(ctx.n(300, 4500)):
         kind, e = gen.root()
@@ -877,6 +982,26 @@ def run(ctx: lib.Ctx) -> None:
                         violations += 1
     for f in known_hits.values():
         ctx.known_hit(f)
+
+    # ---- history stream: no state may be carried between calls ----------------------------------------------
+    hist_pool = [(kind, e) for kind, e, structured in exprs if structured and not finding_class(e) and size(e) <= 60]
+    step = max(1, len(hist_pool) // ctx.n(150, 2500))
+    n_hist = 0
+    for kind, e in hist_pool[::step]:
+        for inline, inline2 in ((True, False), (False, True)):
+            import copy
+            e_in = copy.deepcopy(e)
+            steps, why = history_oracle(rng, e_in, inline, inline2)
+            n_hist += 1
+            ctx.case(('history', json.dumps(e, sort_keys=True), inline), nontrivial=size(e) >= 3, kind='history')
+            if why:
+                violate(f'format/parse are not functions of their argument: {why}',
+                        {'expr': e, 'inline': inline, 'history': steps,
+                         'repro': 'from pytezos.michelson.format import micheline_to_michelson as f; from pytezos.michelson.parse import '
+                                  f'michelson_to_micheline as p; e={e!r}; r=p(f(e, inline={inline})); '
+                                  '(r.append(0) if isinstance(r, list) else r.update(prim="x")); '
+                                  f'assert p(f(e, inline={inline})) == e'})
+    ctx.extra['history_cases'] = n_hist
     t_expr = time.time()
 
     # ---- texts: re-laid-out, mutated, corner cases ------------------------------------------------------
@@ -960,6 +1085,19 @@ def run(ctx: lib.Ctx) -> None:
 
 def replay(ctx, doc):
     """re-run the oracle on a stored failing input; non-zero when it still fails"""
+    if 'history' in doc:
+        import random
+        bad = False
+        for sd in range(20):
+            steps, why = history_oracle(random.Random(sd), json.loads(json.dumps(doc['expr'])), doc.get('inline', False), not doc.get('inline', False))
+            if why:
+                print('history:', steps)
+                print('oracle:', why)
+                bad = True
+                break
+        if not bad:
+            print('oracle: holds')
+        return bad
     if 'expr' in doc:
         text, why = roundtrip_oracle(doc['expr'], doc.get('inline', False))
         print('text:', repr(text))
